@@ -406,7 +406,8 @@ def apply_binary(name, a, b):
         q = py_floordiv(a, b)
         return z3.If(b == 0, z3.IntVal(0), q if name == "floor_divide" else a - b * q)
     if name in ("bitwise_xor", "bitwise_and", "bitwise_or", "left_shift", "right_shift"):
-        return UF("I_" + name, z3.IntSort(), z3.IntSort(), z3.IntSort())(a, b)
+        # bit operations on integers: 64-bit two's complement words
+        return _BV_BIN[name](z3.Int2BV(a, 64), z3.Int2BV(b, 64))
     raise Unsupported(f"integer ufunc {name}")
 
 
@@ -694,6 +695,8 @@ class SymArr:
             return r
         if not self.contiguous:
             raise ValueError("To change to a dtype of a different size, the last axis must be contiguous")
+        if self.dtype.itemsize == 4 and dtype.itemsize == 8 and self.ndim == 1 and self.kind == "int":
+            return PairArr(self.reshape(-1, 2), contiguous=True)
         raise Unsupported("view with a different item size")
 
     def astype(self, dtype, copy=True):
@@ -842,6 +845,75 @@ class SymArr:
 
 class _NotArrayLike(Exception):
     pass
+
+
+class PairArr:
+    """`a.view(np.uint64)` of a contiguous int32 array [x0, y0, x1, y1, ...]: k 64-bit words, word i = the pair
+    (x_i, y_i).  The pairs are kept explicitly as a (k, 2) view; indexing selects pairs; `.view(np.int32)` unpairs and,
+    as in numpy, requires a contiguous array (a basic slice with a step other than 1 is not)."""
+
+    def __init__(self, m, contiguous=True, scalar=False):
+        self.m = m                      # SymArr of shape (k, 2)
+        self.contiguous = contiguous
+        self.scalar = scalar
+        self.dtype = _np.dtype(_np.uint64)
+
+    @property
+    def ndim(self):
+        return 0 if self.scalar else 1
+
+    @property
+    def shape(self):
+        return () if self.scalar else (wrap_dim(self.m.shape_[0]),)
+
+    def __getitem__(self, idx):
+        idx = _unproxy(idx)
+        if isinstance(idx, slice):
+            first, cnt, step = slice_axis(self.m.shape_[0], idx)
+            sub = getitem_nd(self.m, (idx, slice(None)))
+            st = z3.simplify(step)
+            unit = z3.is_int_value(st) and st.as_long() == 1
+            cv = dim_value(cnt)
+            return PairArr(sub, contiguous=bool(unit or (cv is not None and cv <= 1)))
+        if isinstance(idx, (SInt, numbers.Integral, _np.integer)) and not isinstance(idx, bool):
+            t = I(idx)
+            check_index_bounds(t, self.m.shape_[0])
+            w = wrap_index(t, self.m.shape_[0])
+            msnap = self.m.snapshot()
+            row = SymArr.fresh((1, 2), lambda i, j: msnap(w, j), self.m.kind, self.m.dtype)
+            return PairArr(row, contiguous=True, scalar=True)
+        if idx is Ellipsis:
+            return self
+        sub = getitem_nd(self.m, (idx, slice(None))) if not isinstance(idx, (list, _np.ndarray, SymArr)) else None
+        if sub is None:
+            ia = as_operand(idx)[1]
+            if ia.kind == "bool":
+                nz = nonzero_facts(ia, "pm")
+                msnap = self.m.snapshot()
+                sub = SymArr.fresh((nz.cnt, 2), lambda i, j: msnap(nz.pos(i), j), self.m.kind, self.m.dtype)
+                sub.nz = nz
+            else:
+                check_index_bounds(ia, self.m.shape_[0])
+                isnap, msnap = ia.snapshot(), self.m.snapshot()
+                n0 = self.m.shape_[0]
+                sub = SymArr.fresh((ia.shape_[0], 2), lambda i, j: msnap(wrap_index(isnap(i), n0), j), self.m.kind, self.m.dtype)
+        return PairArr(sub, contiguous=True)
+
+    def copy(self):
+        snap = self.m.snapshot()
+        return PairArr(SymArr.fresh(self.m.shape_, snap, self.m.kind, self.m.dtype), True, self.scalar)
+
+    def view(self, dtype):
+        dtype = npdtype(dtype)
+        if dtype.itemsize == 8:
+            return self
+        if dtype.itemsize != 4:
+            raise Unsupported("view of paired words with this item size")
+        if not self.contiguous:
+            raise ValueError("To change to a dtype of a different size, the last axis must be contiguous")
+        flat = self.m.flatten()
+        flat.dtype = dtype
+        return flat
 
 
 def _note_write(buf):
